@@ -208,6 +208,18 @@ impl Outcome {
     }
 }
 
+/// Diagnostics about the tool's own cross-checks (stderr, at most 3 per run).
+pub fn note(msg: impl AsRef<str>) {
+    use std::sync::atomic::{AtomicUsize, Ordering};
+    static N: AtomicUsize = AtomicUsize::new(0);
+    let n = N.fetch_add(1, Ordering::SeqCst);
+    if n < 3 {
+        eprintln!("replay: note: {}", msg.as_ref());
+    } else if n == 3 {
+        eprintln!("replay: note: (further notes suppressed)");
+    }
+}
+
 /// keep failure records readable
 pub fn clip(s: &str) -> String {
     const MAX: usize = 1500;
